@@ -29,6 +29,7 @@ def run(ck, an, tier):
     allocation_filters(ck, an, "S2")
     from rules import ledger
     from sa.report import Renamed
+    ledger.trade_formulas(Renamed(ck, "C01:"), an, only={"trade-side", "trade-notional", "trade-cost_of_cash", "trade-quantity", "trade-contract"})   # what a trade of the computed size costs: a frictionless rebalance leaves the NLV where it was
     ledger.transact_equations(Renamed(ck, "C01:"), an, {"equations"})     # executing a trade moves the position by exactly the traded quantity (targets are reached exactly)      # which entries of a target survive into the allocation (non-cash, non-zero, keyed by static hashing)
 
 
@@ -192,9 +193,10 @@ def s3(ck, an):
         ck.check(ok, "ARGFLOW", "S3.trade-recorded", subj, fa.loc(t), "every trade built is appended to the list returned", "a trade built is not always appended to the returned list", construct=stmt_text(t))
         kw = {k.arg: fa.sym.canon(k.value) for k in t.keywords}
         tn = [e.id for e in loop.target.elts] if isinstance(loop.target, ast.Tuple) else ["?", "?"]
-        ck.check(kw.get("contract", "").startswith(tn[0] + "∈"), "ARGFLOW", "S3.trade-contract", subj, fa.loc(t), "the trade is for the item's contract", f"Trade(contract={kw.get('contract')})", construct="contract=")
+        item = [loop_item(fa, loop, i).key() for i in range(2)] if isinstance(loop.target, ast.Tuple) and len(loop.target.elts) == 2 else ["?", "?"]
+        ck.check(kw.get("contract", "") == item[0], "ARGFLOW", "S3.trade-contract", subj, fa.loc(t), "the trade is for the item's contract", f"Trade(contract={kw.get('contract')})", construct="contract=")
         q = kw.get("quantity", "")
-        ck.check(tn[1] in q, "ARGFLOW", "S3.trade-quantity", subj, fa.loc(t), "the traded quantity is the item's imbalance (or its whole-lot truncation)", f"Trade(quantity={q})", construct="quantity=")
+        ck.check(item[1] in q, "ARGFLOW", "S3.trade-quantity", subj, fa.loc(t), "the traded quantity is the item's imbalance (or its whole-lot truncation)", f"Trade(quantity={q})", construct="quantity=")
         ck.check(kw.get("time") == "self.time", "ARGFLOW", "S3.trade-time", subj, fa.loc(t), "trades are stamped with the request's time", f"Trade(time={kw.get('time')})", construct="time=")
 
 
